@@ -72,17 +72,25 @@ def run(ck):
             n = m.get('n', 0)
             ls = [(m.get(f't{i}', 0), m.get(f'c{i}', 0)) for i in range(min(n, 3))]
             pts = sorted({p + d for (t, c) in ls for p in (t, t - c) for d in (-2, -1, 0, 1, 2)})
-            r = native_check(nat, ls, pts) if ls else None
+            r = native_check(nat, ls, pts) if ls and h.name != 'c12_lookup_switch' else None
             if r:
                 ck.violation(f'{h.name}: {r[0]}', r[1])
+                continue
+            # fall back on the generic replay: the harness itself, natively, on the counterexample (these harnesses only have S_unreach stubs)
+            ok, msg = engb.native_playback(B, h, vecs) if vecs else (None, 'no concrete values')
+            if ok:
+                ck.violation(f'{h.name} ({h.meaning[:120]}): natively, on the solver\'s counterexample, {msg}', {'kind': 'kani-playback', 'harness': h.name, 'features': 'default', 'unsafe': False, 'vecs': vecs})
             else:
-                ck.inconclusive.append(f'{h.name} FAILED ({h.failed_checks[:2]}) but the decoded counterexample {m} does not reproduce natively')
+                ck.inconclusive.append(f'{h.name} FAILED ({h.failed_checks[:2]}) but the counterexample {m} does not reproduce natively ({msg})')
     ck.samples += [{'harness': h.name, 'verdict': h.verdict, 'meaning': h.meaning, 'seconds': round(h.secs, 1)} for h in hs]
     ck.functions += ['TimeZoneRef::unix_time_to_unix_leap_time', 'TimeZoneRef::unix_leap_time_to_unix_time', 'binary_search_leap_seconds', 'TimeZoneRef::new/check_inputs', 'TimeZoneRef::find_local_time_type', 'binary_search_transitions']
     ck.explanation = 'CBMC decides the assertions for every table of <=3 records accepted by the real constructor and every i64 instant/count; the oracle is a declarative "correction in force" definition written in the harness.'
 
 
 def replay(ck, case):
+    if case['case'].get('kind') == 'kani-playback':
+        import kprop
+        return kprop.replay_playback(ck, case)
     nat = common.Native()
     c = case['case']
     r = native_check(nat, [tuple(x) for x in c['ls']], c['pts'])
